@@ -8,6 +8,7 @@ mod script;
 mod session;
 mod trace;
 mod drv_activation;
+mod drv_transport;
 
 #[global_allocator]
 static GLOBAL: outcome::CountingAlloc = outcome::CountingAlloc;
@@ -29,6 +30,7 @@ fn main() {
     let blobs = arg(&args, "--blobs").unwrap_or_default();
     let code = match args[1].as_str() {
         "activation" => drv_activation::run(&plans, &trace_path, &blobs, seed),
+        "transport" => drv_transport::run(&args, &plans, &trace_path, &blobs),
         other => { eprintln!("unknown driver {}", other); 2 }
     };
     std::process::exit(code);
